@@ -1,7 +1,8 @@
 /-
 C40 driver.  Line:
   `cls <cap> <program…> => odpor=<path>,<path>… none=<path>,<path>…`
-(paths as printed by "Execution came to an end at"; `-` for an empty list)
+(paths as printed by "Execution came to an end at"; `-` for an empty list; `none=*`: compare with the classes of the
+reference explorer only)
 MONFAIL: a path explored by odpor is not a complete execution of the reference LTS; two executions explored by odpor are
 equivalent under the checker's dependency relation; their number differs from the number of classes of the executions
 explored without reduction.  DISAGREE: the classes of the unreduced run differ in number from those of the reference
@@ -43,21 +44,26 @@ def judge (q a : List String) : Verdict :=
   | "cls" :: capS :: prog =>
     match capS.toNat?, parseProgram prog, kvs "odpor" a, kvs "none" a with
     | some cap, some p, [od], [no] =>
-      match wordsOf p (listOf od), wordsOf p (listOf no) with
+      -- `none=*`: no unreduced run of the real checker for this (larger) program; the classes are those of the
+      -- reference explorer alone (which the smaller programs validate against the unreduced runs)
+      let refOnly := no == "*"
+      match wordsOf p (listOf od), (if refOnly then .ok [] else wordsOf p (listOf no)) with
       | .error e, _ => .monfail s!"odpor: {e}"
       | _, .error e => .disagree s!"none: {e}"
       | .ok wo, .ok wn =>
         let co := wo.map (canon depLabel labelRank)
-        let cn := dedup (wn.map (canon depLabel labelRank))
         let r := explore p true cap
         if r.capped || r.exhausted then .bad else
         let cr := dedup (r.execs.map (canon depLabel labelRank))
+        let cn := if refOnly then cr else dedup (wn.map (canon depLabel labelRank))
         if !(consistent (wo ++ wn.take 12)) then .bad
         else if cn.length != cr.length then .disagree s!"classes(none)={cn.length} classes(reference)={cr.length} nexec={r.nexec}"
         else if (dedup co).length != co.length then
           .monfail s!"odpor explored {co.length} executions but only {(dedup co).length} classes: two are equivalent"
         else if co.length != cn.length then
           .monfail s!"odpor explored {co.length} executions, the unreduced exploration has {cn.length} classes"
+        else if !(co.all (cr.contains ·)) then
+          .monfail s!"an execution explored by odpor belongs to no class of the reference exploration"
         else .ok
     | _, _, _, _ => .bad
   | _ => .bad
